@@ -8,6 +8,7 @@
 (*   read   : every stored list x every requested list (incl. an absent name)         *)
 (*   kinds  : the 3 x 3 kind table of the generic container per operator, conversions *)
 (*   order  : signed value pairs x layouts for comparisons, abs, %, sums, identities  *)
+(*   py     : every name of the Python-facing method table x kind pairings x layouts   *)
 EXTENDS FP, Sequences, FiniteSets, SequencesExt, Json, IOUtils, TLC
 CONSTANTS Names, Absent
 
@@ -124,8 +125,34 @@ Big == FMul(FOfInt(100000), FOfInt(100000))
 OrderProgs == {OrderProg(k, va, vb, L[1], L[2]) : k \in {"D1", "D2"}, va \in Vals, vb \in Vals, L \in OrderLayouts}
               \cup {OrderProg(k, va, vb, <<"a", "b">>, <<"b", "a">>) : k \in {"D1", "D2"}, va \in {Big, FNeg(Big)}, vb \in {FOfInt(3), FOfInt(-7)}}
 
+\* ---- py family: the Python-facing method table (PyNum.tla) ------------------------------------------
+\* registers: 1 F  2 D1(X)  3 D2(X)  4 D1(Y)  5 D2(Y)  6 F (negative)  7 N(D1 X)  8 N(D2 X)
+PyBinNames == {"__add__", "__radd__", "__sub__", "__rsub__", "__mul__", "__rmul__", "__truediv__", "__rtruediv__", "__pow__"}
+PyCmpNames == {"__eq__", "__lt__", "__le__", "__gt__", "__ge__"}
+PyUnNames == {"__neg__", "__exp__", "__abs__", "__log__", "__norm_cdf__", "__norm_inv_cdf__", "__float__", "renew", "pickle", "to_json", "to_dual", "to_dual2"}
+PyProg(X, Y, neg) ==
+  LET s == IF neg THEN -1 ELSE 1
+      leaves == << LeafF(FOfRat(7, 4)), Leaf("D1", 1, FOfRat(s * 5, 8), X), Leaf("D2", 2, FOfRat(s * 3, 4), X),
+                   Leaf("D1", 3, FOfRat(9, 16), Y), Leaf("D2", 4, FOfRat(11, 16), Y), LeafF(FOfRat(-3, 4)) >>
+      pre == << [op |-> "wrap", a |-> 2], [op |-> "wrap", a |-> 3] >>
+      selfs == {2, 3, 4, 5}
+      others == 1..8
+      bin == {[op |-> "py", name |-> n, a |-> a, b |-> b] : n \in PyBinNames \cup PyCmpNames, a \in selfs, b \in others}
+      un == {x \in {[op |-> "py", name |-> n, a |-> a] : n \in PyUnNames, a \in selfs} :
+                 (x.name = "to_dual" => x.a \in {3, 5}) /\ (x.name = "to_dual2" => x.a \in {2, 4})}
+      \* the core operations the names denote, for the bit-for-bit comparison
+      core == {Bin(op, a, b, <<"r", "r">>) : op \in {"add", "sub", "mul", "div"}, a \in 1..6, b \in 1..6}
+      coreok == {x \in core : ~({x.a, x.b} \subseteq {2, 3, 4, 5} /\ ((x.a \in {2, 4}) # (x.b \in {2, 4}))) /\ ({x.a, x.b} \cap selfs # {})}
+      new == {[op |-> "py", name |-> "new", kind |-> k, re |-> FOfRat(5, 4), vars |-> v, d |-> [i \in 1..nd |-> FOfRat(i, 2)]] @@
+                (IF k = "D2" THEN [d2half |-> [i \in 1..nh |-> [j \in 1..nh |-> FOfRat(i + j, 8)]]] ELSE <<>>) :
+              k \in {"D1", "D2"}, v \in {<<>>, <<"p">>, <<"p", "q">>, <<"p", "q", "p">>}, nd \in 0..3, nh \in 0..2}
+      ord == {[op |-> "py", name |-> "adorder", order |-> o] : o \in 0..4}
+  IN [key |-> "py/" \o (IF neg THEN "neg/" ELSE "") \o ToString(X) \o ToString(Y), leaves |-> leaves,
+      code |-> pre \o SetToSeq(bin \cup un \cup coreok \cup new \cup ord)]
+PyProgs == {PyProg(X, Y, n) : X \in {<<"a", "b">>, <<>>}, Y \in {<<"a", "b">>, <<"b", "c">>, <<"b", "a">>}, n \in BOOLEAN}
+
 Family == IOEnv.FAMILY
-Out == CASE Family = "layout" -> LayoutProgs [] Family = "read" -> ReadProgs [] Family = "kinds" -> KindProgs [] Family = "order" -> OrderProgs
+Out == CASE Family = "layout" -> LayoutProgs [] Family = "read" -> ReadProgs [] Family = "kinds" -> KindProgs [] Family = "order" -> OrderProgs [] Family = "py" -> PyProgs
 ASSUME ndJsonSerialize(IOEnv.OUT, SetToSeq(Out))
 ASSUME PrintT(<<"GEN", Family, Cardinality(Out)>>)
 VARIABLE x
